@@ -1,6 +1,6 @@
 """C18 — Results depend only on explicit arguments, not on process history."""
 
-from .. import fx, state
+from .. import argbind, fx, state
 
 LEVEL = "other"
 TECHNIQUE = "global-state effect lints: enumeration of every read of the mutable global parameter object, cache-key vs builder read-set comparison, memo-site purity, memo identity, precision pinning; inventory of every write to module-level state with a parameter-dependency analysis of memo keys"
@@ -25,3 +25,4 @@ def run(ctx):
     fx.weak_form_memo(ctx)
     fx.precision_pin(ctx)
     state.process_state(ctx)
+    argbind.repo_argument_binding(ctx)
